@@ -18,6 +18,13 @@
 //       ok disp=<channels handled, sorted> ran=<functors run, in order> pend=<functors left pending>
 //          quit=<quit_> it=<passes so far> log=<error-level log lines of this pass>
 //       ok unused           the loop had already left its while loop
+//  case <id> idle <ms> <k>
+//     (one op) GO          FREE-RUNNING: the real loop() with the real epoll_wait / poll and the time-out the loop itself
+//                          passes (nothing scripted); for <ms> milliseconds nothing happens except k real signals
+//                          (SIGUSR1, no SA_RESTART: k genuine EINTRs at most) sent to the loop thread by a helper thread,
+//                          which then calls quit().  Output: `ok idle spin=0` iff the loop made at most k + 4 passes;
+//                          otherwise `ok idle spin=1 it=<passes>` - a loop that goes round without a reason (zero poll
+//                          time-out, a self-sustaining wake-up ..) makes thousands (REVIEW_E E-4)
 //  end
 // accept4 / epoll_wait / poll are interposed at link time (-Wl,--wrap=...). A fatal accept class
 // (LOG_FATAL -> abort) is executed in a forked child; the parent reports ev=Abort.
@@ -190,6 +197,14 @@ int main()
   uint16_t port = 0;
   string line, mode;
   std::vector<string> events;
+  int idleMs = 0, idleK = 0;
+  {
+    struct sigaction sa;
+    memset(&sa, 0, sizeof sa);
+    sa.sa_handler = [](int) {};     // no SA_RESTART: a blocked epoll_wait / poll returns EINTR
+    sigemptyset(&sa.sa_mask);
+    sigaction(SIGUSR1, &sa, NULL);
+  }
   std::vector<std::unique_ptr<Channel> > pipeChannels;
   g_loop = &loop;
   g_loopThread = pthread_self();
@@ -219,6 +234,7 @@ int main()
       }
       g_clobber = (mode == "acc" && w.size() > 3 && w[3] == "clobber");
       if (mode == "loop") { g_steps.clear(); g_recs.clear(); }
+      if (mode == "idle") { idleMs = atoi(w[3].c_str()); idleK = atoi(w[4].c_str()); }
       continue;
     }
     if (k == "end" && mode == "loop")
@@ -347,6 +363,22 @@ int main()
       if (closedNow > 0) { if (!ev.empty()) ev += ","; ev += "ValveClosed"; }
       if (ev.empty()) ev = "-";
       printf("ok ev=%s ready=%d handed=%d valved=%d idle=%d fds=%d\n", ev.c_str(), ready, handed, valved, idle, fds);
+      fflush(stdout);
+    }
+    else if (mode == "idle")
+    {
+      int64_t it0 = loop.iteration();
+      std::thread helper([&]() {
+        int slice = idleMs * 1000 / (idleK + 1);
+        for (int i = 0; i < idleK; ++i) { ::usleep(slice); pthread_kill(g_loopThread, SIGUSR1); }
+        ::usleep(slice);
+        loop.quit();
+      });
+      loop.loop();
+      helper.join();
+      long iters = static_cast<long>(loop.iteration() - it0);
+      if (iters <= idleK + 4) printf("ok idle spin=0\n");
+      else printf("ok idle spin=1 it=%ld\n", iters);
       fflush(stdout);
     }
     else
